@@ -168,6 +168,10 @@ def pumped_cases(sh):
                 yield {"part": sh["part"], "tok": sh["tok"], "text": head + f * n}
 
 
+def opt_shards(tier):
+    return dd.residue_shards("transform-sensitive-AC", "ts", "AC", 16) + dd.seq_shards("plain-AC", "A0", len(A0), 2, "AC")
+
+
 def run_shard(sh):
     st = Stats()
     return dd.run_cases(st, sh["part"], cases_of(sh), evaluate)
